@@ -94,11 +94,11 @@ def run_tasks(fn, payloads, jobs=None):
 
 
 # ----------------------------------------------------------------------------- native replay
-def build_native(name, defs, cfg, profile='dev', trace=False):
+def build_native(name, defs, cfg, profile='dev', trace=False, cblog=False):
     """build the corpus + replay driver with the *stable* toolchain (what users run); returns binary.
     trace=True compiles /repo with --cfg logos_verif (the guarded read-trace hook)"""
     feats = build.CONFIGS[cfg]
-    cdir = os.path.join(build.WORK, 'native', f'{name}-{build.cfg_name(feats, profile)}' + ('-trace' if trace else ''))
+    cdir = os.path.join(build.WORK, 'native', f'{name}-{build.cfg_name(feats, profile)}' + ('-trace' if trace else '') + ('-cblog' if cblog else ''))
     os.makedirs(os.path.join(cdir, 'src', 'bin'), exist_ok=True)
     fl = ', '.join(f'"{f}"' for f in feats)
     build.write_if_changed(os.path.join(cdir, 'Cargo.toml'), f'''[package]
@@ -123,9 +123,9 @@ overflow-checks = false
             build.write_if_changed(os.path.join(cdir, 'Cargo.lock'), f.read())
     build.write_if_changed(os.path.join(cdir, 'src', 'lib.rs'), corpus.render_lib(defs))
     build.write_if_changed(os.path.join(cdir, 'src', 'bin', 'replay.rs'), corpus.render_replay_main(defs))
-    tname = build.cfg_name(feats, profile) + ('-trace' if trace else '')
+    tname = build.cfg_name(feats, profile) + ('-trace' if trace else '') + ('-cblog' if cblog else '')
     env = dict(build.ENV_BASE, CARGO_TARGET_DIR=os.path.join(build.WORK, 'target-native', tname),
-               RUSTFLAGS='-Awarnings' + (' --cfg logos_verif' if trace else ''))
+               RUSTFLAGS='-Awarnings' + (' --cfg logos_verif' if trace else '') + (' --cfg cb_log' if cblog else ''))
     cmd = ['cargo', 'build', '--offline', '--bin', 'replay'] + (['--release'] if profile == 'release' else [])
     rc, log = build.run(cmd, cwd=cdir, env=env)
     if rc != 0:
@@ -145,8 +145,12 @@ def native_run(binary, def_id, data: bytes, partial=False, start=0, timeout=20, 
         return None, 'timeout', ''
     items = []
     reads = []
+    cbs = []
     for line in r.stdout.splitlines():
         parts = line.split(' ', 3)
+        if parts[0] == 'CB':
+            cbs.append((parts[1], int(parts[2]), int(parts[3])))
+            continue
         if parts[0] == 'READS':
             reads.append([tuple(int(x) for x in p.split(':')) for p in (parts[1].split(',') if len(parts) > 1 and parts[1] else [])])
             continue
@@ -160,7 +164,9 @@ def native_run(binary, def_id, data: bytes, partial=False, start=0, timeout=20, 
     if r.returncode != 0:
         panicked = (r.stderr.strip().splitlines() or ['exit %d' % r.returncode])[0][:300]
     native_run.last_reads = reads
+    native_run.last_cbs = cbs
     return items, panicked, r.stdout
 
 
 native_run.last_reads = []
+native_run.last_cbs = []
